@@ -13,6 +13,9 @@
 //!   o|<kind>|<shape>|<strides>|<idx>                                   Layout::offset
 //!   w|<kind>|<shape>|<strides>|<n>|<idx>                               weakly_checked_view()[idx]
 //!   a|nd|<shape>|<strides>|<n>|<base>|<dim>|<M>                        get_array::<M>(base, dim)
+//!   h|<kind>|<shape>|<cap>|<ops>|<axis>|<new_size>     history on an owned tensor made by from_data
+//!        (Vec capacity cap), ops separated by `;`: `a<axis>:<k>` append k entries along axis,
+//!        `t` transpose, `p<d0><d1>..` permute; then has_capacity(axis, new_size) on the reached state
 //!
 //! The harness never dereferences an element of a tensor whose layout its own u128 oracle does
 //! not prove in bounds: for such (wrongly) accepted tensors only the acceptance is reported.
@@ -530,6 +533,142 @@ fn array_nd<const N: usize, T>(shape: &[usize], strides: &[usize], n: usize, bas
     })
 }
 
+// ------------------------------------------------------------------ histories on owned tensors
+/// Exact check that (shape, strides) fits in `cap` elements and maps distinct indices to
+/// distinct offsets (brute force; only called on small index spaces).
+fn layout_ok(shape: &[usize], strides: &[usize], cap: usize) -> bool {
+    if !safe_layout(shape, strides, cap) {
+        return false;
+    }
+    let cnt = index_count(shape);
+    if cnt == 0 {
+        return true;
+    }
+    if cnt > 4096 {
+        return false;
+    }
+    let mut seen = std::collections::HashSet::new();
+    for mut code in 0..cnt as usize {
+        let mut off = 0usize;
+        for d in (0..shape.len()).rev() {
+            off += (code % shape[d]) * strides[d];
+            code /= shape[d];
+        }
+        if !seen.insert(off) {
+            return false;
+        }
+    }
+    true
+}
+
+enum HistEnd {
+    Skip,
+    State { shape: Vec<usize>, strides: Vec<usize>, n: usize, axis: usize, new: usize, out: Out },
+}
+
+trait Owned: Sized {
+    fn make(shape: &[usize], data: Vec<u32>) -> Self;
+    fn shp(&self) -> Vec<usize>;
+    fn strd(&self) -> Vec<usize>;
+    fn dlen(&self) -> usize;
+    fn hascap(&self, axis: usize, new: usize) -> bool;
+    fn transp(&mut self);
+    fn perm(&mut self, order: &[usize]);
+    fn app(&mut self, axis: usize, other: &Self) -> bool;
+}
+impl Owned for Tensor<u32> {
+    fn make(shape: &[usize], data: Vec<u32>) -> Self { Tensor::from_data(shape, data) }
+    fn shp(&self) -> Vec<usize> { self.shape().to_vec() }
+    fn strd(&self) -> Vec<usize> { self.strides().to_vec() }
+    fn dlen(&self) -> usize { rten_tensor::Storage::len(&self.view().storage()) }
+    fn hascap(&self, axis: usize, new: usize) -> bool { self.has_capacity(axis, new) }
+    fn transp(&mut self) { self.transpose() }
+    fn perm(&mut self, order: &[usize]) { self.permute(order) }
+    fn app(&mut self, axis: usize, other: &Self) -> bool { self.append(axis, other).is_ok() }
+}
+impl<const N: usize> Owned for NdTensor<u32, N> {
+    fn make(shape: &[usize], data: Vec<u32>) -> Self { NdTensor::from_data(shape.try_into().unwrap(), data) }
+    fn shp(&self) -> Vec<usize> { self.shape().to_vec() }
+    fn strd(&self) -> Vec<usize> { self.strides().to_vec() }
+    fn dlen(&self) -> usize { rten_tensor::Storage::len(&self.view().storage()) }
+    fn hascap(&self, axis: usize, new: usize) -> bool { self.has_capacity(axis, new) }
+    fn transp(&mut self) { self.transpose() }
+    fn perm(&mut self, order: &[usize]) { self.permute(order.try_into().unwrap()) }
+    fn app(&mut self, axis: usize, other: &Self) -> bool { self.append(axis, other).is_ok() }
+}
+
+fn observe_state<T: Owned>(t: &T, axis: usize, new: usize) -> HistEnd {
+    let out = match guarded(|| t.hascap(axis, new)) {
+        Ok(true) => Out::CapYes,
+        Ok(false) => Out::CapNo,
+        Err(p) => p,
+    };
+    HistEnd::State { shape: t.shp(), strides: t.strd(), n: t.dlen(), axis, new, out }
+}
+
+fn history<T: Owned>(shape0: &[usize], cap: usize, ops: &[&str], axis: usize, new: usize) -> (usize, HistEnd) {
+    let len0: usize = shape0.iter().product();
+    if len0 > 4096 || cap > (1 << 16) {
+        return (0, HistEnd::Skip);
+    }
+    let mut data: Vec<u32> = Vec::with_capacity(cap.max(len0));
+    data.extend(0..len0 as u32);
+    let real_cap = data.capacity();
+    let Ok(mut t) = guarded(|| T::make(shape0, data)) else { return (real_cap, HistEnd::Skip) };
+    for op in ops {
+        if op.is_empty() {
+            continue;
+        }
+        let shape = t.shp();
+        let strides = t.strd();
+        match &op[..1] {
+            "t" => t.transp(),
+            "p" => {
+                let order: Vec<usize> = op[1..].bytes().map(|b| (b - b'0') as usize).collect();
+                if order.len() != shape.len() || !(0..shape.len()).all(|d| order.iter().filter(|&&o| o == d).count() == 1) {
+                    return (real_cap, HistEnd::Skip);
+                }
+                t.perm(&order);
+            }
+            "a" => {
+                let (a, k) = op[1..].split_once(':').unwrap();
+                let a: usize = a.parse().unwrap();
+                let k: usize = k.parse().unwrap();
+                if a >= shape.len() {
+                    return (real_cap, HistEnd::Skip);
+                }
+                let target = shape[a] + k;
+                match guarded(|| t.hascap(a, target)) {
+                    Ok(true) => {
+                        let mut ns = shape.clone();
+                        ns[a] = target;
+                        if !layout_ok(&ns, &strides, real_cap) {
+                            // accepting this would install an unsafe layout: report it, do not append
+                            return (real_cap, observe_state(&t, a, target));
+                        }
+                        let mut os = shape.clone();
+                        os[a] = k;
+                        let olen: usize = os.iter().product();
+                        let other = T::make(&os, vec![7u32; olen]);
+                        if guarded(|| t.app(a, &other)) != Ok(true) {
+                            return (real_cap, HistEnd::Skip);
+                        }
+                    }
+                    Ok(false) => {}
+                    Err(_) => return (real_cap, observe_state(&t, a, target)),
+                }
+            }
+            _ => return (real_cap, HistEnd::Skip),
+        }
+    }
+    (real_cap, observe_state(&t, axis, new))
+}
+
+fn history_nd<const N: usize, T>(shape0: &[usize], cap: usize, ops: &[&str], axis: usize, new: usize) -> (usize, HistEnd) {
+    let _ = std::marker::PhantomData::<T>;
+    history::<NdTensor<u32, N>>(shape0, cap, ops, axis, new)
+}
+
 // ------------------------------------------------------------------ exec
 fn coq_probes(ps: &[(Vec<usize>, Out)]) -> String {
     let v: Vec<String> = ps.iter().map(|(i, o)| format!("({}, {})", coq_list_n(i), o.coq())).collect();
@@ -647,6 +786,29 @@ fn exec_line(line: &str, mode: &str) -> String {
             let q = format!("QArray {} {} {} {} {}%nat {}%nat", coq_list_n(&shape), coq_list_n(&strides), n, coq_list_n(&base), dim, m);
             let tag = format!("arr-nd-{}", out.tag());
             format!("{}\t{}\t{}", tag, line, case_term(mode, "nd", &q, &out, &[], false))
+        }
+        "h" => {
+            let kind = f[1];
+            let shape0 = parse_list(f[2]);
+            let cap: usize = f[3].parse().unwrap();
+            let ops: Vec<&str> = f[4].split(';').collect();
+            let axis: usize = f[5].parse().unwrap();
+            let new: usize = f[6].parse().unwrap();
+            let (real_cap, end) = if kind == "nd" {
+                by_rank!(shape0.len(), history_nd, (), &shape0, cap, &ops, axis, new)
+            } else {
+                history::<Tensor<u32>>(&shape0, cap, &ops, axis, new)
+            };
+            let HistEnd::State { shape, strides, n, axis, new, out } = end else { return skip_line(line, mode) };
+            let mut ns = shape.clone();
+            if axis < ns.len() {
+                ns[axis] = new;
+            }
+            let small = enum_count(&ns).max(enum_count(&shape)) <= 512;
+            let q = format!("QHist {} {} {} {} {}%nat {}", coq_list_n(&shape), coq_list_n(&strides), n, real_cap, axis, new);
+            let stale = shape.iter().zip(contiguous_strides(&shape).iter().zip(strides.iter())).any(|(&s, (c, t))| s == 1 && c != t);
+            let tag = format!("hist-{}-{}{}", kind, out.tag(), if stale { "-stale" } else { "" });
+            format!("{}\t{}\t{}", tag, line, case_term(mode, kind, &q, &out, &[], small))
         }
         _ => panic!("bad input line {}", line),
     }
@@ -805,6 +967,53 @@ fn generate(seed: u64, n: usize, tier: &str, out: &mut impl Write) {
             }
         }
     }
+    // 2b. three non-unit dimensions with arbitrary (non-nested) strides: the overlap check must
+    //     accumulate the extents of *all* smaller-stride dimensions; storage exactly max_off+1
+    let (sizes3, smax3): (&[usize], usize) = if thorough { (&[2, 3], 8) } else { (&[2], 6) };
+    for &s0 in sizes3 {
+        for &s1 in sizes3 {
+            for &s2 in sizes3 {
+                for code in 0..smax3.pow(3) {
+                    let shape = vec![s0, s1, s2];
+                    let strides = vec![1 + code % smax3, 1 + (code / smax3) % smax3, 1 + code / (smax3 * smax3)];
+                    let m = exact_min_len(&shape, &strides).unwrap();
+                    for kind in kind_alt(false) {
+                        emit_ctor(out, if code % 3 == 0 { "fslm" } else { "fdws" }, kind, &shape, &strides, m);
+                    }
+                }
+            }
+        }
+    }
+    // 2c. has_capacity on tensors whose size-1 dimensions carry stale / non-canonical strides
+    //     (is_contiguous ignores them; they become live when the dimension grows)
+    for (shape, strides, n, cap) in [
+        (vec![1usize, 4, 4], vec![8usize, 4, 1], 16usize, 64usize),
+        (vec![1, 4], vec![1, 1], 4, 16),
+        (vec![1, 2, 3], vec![1, 3, 1], 6, 40),
+        (vec![2, 1, 3], vec![3, 1, 1], 6, 40),
+        (vec![1, 1, 3], vec![2, 1, 1], 3, 40),
+        (vec![3, 1], vec![1, 2], 3, 40),
+        (vec![1, 3], vec![3, 1], 3, 40),
+        (vec![1, 3], vec![2, 1], 3, 40),
+    ] {
+        for kind in ["nd", "dyn"] {
+            for axis in 0..shape.len() {
+                for new in [1usize, 2, 3] {
+                    writeln!(out, "e|{}|u|{}|{}|{}|{}|{}|{}", kind, fmt_list(&shape), fmt_list(&strides), n, cap, axis, new).unwrap();
+                }
+            }
+        }
+    }
+    // 2d. histories: append on one axis / transpose / permute, then grow a size-1 axis
+    for kind in ["nd", "dyn"] {
+        writeln!(out, "h|{}|1,2,4|64|a1:2|0|2", kind).unwrap();
+        writeln!(out, "h|{}|4,1|16|t|0|2", kind).unwrap();
+        writeln!(out, "h|{}|1,2,4|64|a1:2;a0:1|0|3", kind).unwrap();
+        writeln!(out, "h|{}|2,1,3|64|p102;a2:1|0|2", kind).unwrap();
+        writeln!(out, "h|{}|3,1|32|t;a1:2|0|2", kind).unwrap();
+        writeln!(out, "h|{}|2,3|32|a0:1;t|1|5", kind).unwrap();
+    }
+
     // 3. fixed extreme cases (always): the F4 family
     let fixed: Vec<(Vec<usize>, Vec<usize>)> = vec![
         (vec![1 << 32, 1 << 32], vec![1 << 32, 1]),
@@ -906,6 +1115,16 @@ fn generate(seed: u64, n: usize, tier: &str, out: &mut impl Write) {
                     emit_ctor(out, if rng.chance(2, 3) { "tfd" } else { "fd" }, kind, &shape, &[], len);
                 }
             }
+            9 if rank >= 3 => {
+                // small non-nested strides on 3+ non-unit dimensions
+                for d in 0..rank {
+                    shape[d] = 2 + rng.below(2) as usize;
+                    strides[d] = 1 + rng.below(12) as usize;
+                }
+                let m = exact_min_len(&shape, &strides).unwrap();
+                emit_ctor(out, if rng.chance(1, 2) { "fdws" } else { "fslm" }, kind, &shape, &strides, m);
+                emit_ctor(out, "fdws", kind, &shape, &strides, m + 1);
+            }
             9..=11 => {
                 // extreme shapes / strides, incl. values engineered to wrap to a small length
                 for d in 0..rank {
@@ -924,6 +1143,36 @@ fn generate(seed: u64, n: usize, tier: &str, out: &mut impl Write) {
                 for len in lens_around(&shape, &strides).into_iter().chain([rng.pick(&BIG)]) {
                     let ctor = STRIDED[rng.below(4) as usize];
                     emit_ctor(out, ctor, kind, &shape, &strides, len);
+                }
+            }
+            12 if it % 3 != 0 => {
+                // random history on an owned tensor with at least one size-1 dimension
+                let rank = 2 + rng.below(2) as usize;
+                let mut sh: Vec<usize> = (0..rank).map(|_| 1 + rng.below(3) as usize).collect();
+                let unit = rng.below(rank as u64) as usize;
+                sh[unit] = 1;
+                let cap = sh.iter().product::<usize>() * (2 + rng.below(4) as usize) + rng.below(4) as usize;
+                let mut ops: Vec<String> = vec![];
+                let mut hist_lines: Vec<String> = vec![];
+                for _ in 0..1 + rng.below(4) {
+                    match rng.below(4) {
+                        0 => ops.push("t".to_string()),
+                        1 => {
+                            let mut order: Vec<usize> = (0..rank).collect();
+                            for d in (1..rank).rev() {
+                                let j = rng.below(d as u64 + 1) as usize;
+                                order.swap(d, j);
+                            }
+                            ops.push(format!("p{}", order.iter().map(|d| d.to_string()).collect::<String>()));
+                        }
+                        _ => ops.push(format!("a{}:{}", rng.below(rank as u64), 1 + rng.below(2))),
+                    }
+                    // every prefix is checked, on every axis that could grow
+                    let axis = rng.below(rank as u64) as usize;
+                    hist_lines.push(format!("h|{}|{}|{}|{}|{}|{}", kind, fmt_list(&sh), cap, ops.join(";"), axis, 2 + rng.below(2)));
+                }
+                for l in hist_lines {
+                    writeln!(out, "{}", l).unwrap();
                 }
             }
             12 => {
